@@ -1,4 +1,6 @@
 SPECIFICATION TSpec
+CONSTANTS
+  PropOnly = FALSE
 CONSTRAINT Diag
 POSTCONDITION TraceAccepted
 CHECK_DEADLOCK FALSE
